@@ -23,7 +23,8 @@ c.ensures('decoded', 'implies(encoded_payload is not None and len(encoded_payloa
           '0, len(self.packets)))')
 c.ensures('empty', 'implies(encoded_payload is not None and len(encoded_payload) == 0, self.packets == [])')
 c.ensures('types-are-digits', 'implies(encoded_payload is not None, forall(lambda k: '
-          '0 <= self.packets[k].packet_type and self.packets[k].packet_type <= 9, 0, len(self.packets)))')
+          '0 <= self.packets[k].packet_type and self.packets[k].packet_type <= 9 and '
+          '(self.packets[k].packet_type == 4 or not is_bin(self.packets[k].data)), 0, len(self.packets)))')
 c.modifies('self.packets')   # fields of the freshly built packets are outside every frame
 
 c = REG.contract('payload.Payload.decode', props=['C02', 'C04', 'C14', 'C10'])
@@ -37,7 +38,8 @@ c.may_raise('KeyError', 'encoded_payload.startswith("d=")',
             ensures=[('nothing-kept', 'self.packets == []')])
 c.ensures('empty', 'implies(len(encoded_payload) == 0, self.packets == [])')
 c.ensures('types-are-digits', 'forall(lambda k: 0 <= self.packets[k].packet_type and '
-          'self.packets[k].packet_type <= 9, 0, len(self.packets))')
+          'self.packets[k].packet_type <= 9 and (self.packets[k].packet_type == 4 or '
+          'not is_bin(self.packets[k].data)), 0, len(self.packets))')
 c.ensures('decoded', 'implies(len(encoded_payload) > 0, '
           'len(self.packets) == len(payload_body(encoded_payload).split("\\x1e")) and '
           'len(self.packets) <= 16 and '
@@ -48,7 +50,8 @@ c.loop(0, index='i', elem_ty=Ref('Packet'),
        invariants=[('decoded-so-far',
                     'forall(lambda k: packet_is(comp[k], xs[k]), 0, i)'),
                    ('types-are-digits', 'forall(lambda k: 0 <= comp[k].packet_type and '
-                    'comp[k].packet_type <= 9, 0, i)'),
+                    'comp[k].packet_type <= 9 and (comp[k].packet_type == 4 or '
+                    'not is_bin(comp[k].data)), 0, i)'),
                    ('allocated', 'forall(lambda k: comp[k] <= alloc_now(), 0, i)')],
        modifies=['new Packet.binary', 'new Packet.packet_type', 'new Packet.data',
                  'new Packet.encode_cache'])
